@@ -29,10 +29,17 @@ fn roundtrip<S: Src, const NC: usize, const NI: usize, const L: usize, const B: 
 ) {
     let kc = s.upto(if NC > 0 { NC - 1 } else { 0 });
     let ki = s.upto(if NI > 0 { NI - 1 } else { 0 });
-    let mut buf = [0u8; B];
+    let mut buf = [0xA5u8; B];
     let b = c.builder();
     let r = b.write_into(&mut buf);
     forget(b);
+    let mut any_items = false;
+    let mut q = 0;
+    while q < NC {
+        any_items = any_items || c.chunks[q].n > 0;
+        q += 1;
+    }
+    let mut compared = false;
     match r {
         Ok(n) => {
             assert!(n + 4 <= B, "HARNESS: buffer array too small");
@@ -47,9 +54,10 @@ fn roundtrip<S: Src, const NC: usize, const NI: usize, const L: usize, const B: 
                 if ki < cc.n {
                     let pi = pc.items().nth(ki).expect("item missing");
                     same_item(s, pi, &cc.items[ki]);
-                    vcover!(true, "an item compared");
+                    compared = true;
                 }
             }
+            vcover!(!any_items || compared, "an item compared");
             vcover!(c.padding > 0, "padded SDES round trip");
             forget(p);
         }
@@ -109,7 +117,7 @@ pub fn owned<S: Src>(s: &mut S) {
     let it = common::shapes::draw_item::<S, 3>(s);
     let ssrc = s.u32();
     let b = Sdes::builder().add_chunk(SdesChunk::builder(ssrc).add_item_owned(it.builder()));
-    let mut buf = [0u8; 32];
+    let mut buf = [0xA5u8; 32];
     let r = b.write_into(&mut buf);
     forget(b);
     if let Ok(n) = r {
